@@ -1,6 +1,6 @@
 #!/bin/sh
 # usage: ./run_check.sh <property id> <quick|thorough> ; cwd=/verif
 cd "$(dirname "$0")"
-export PYTHONPATH=/verif PYTHONHASHSEED=${PYTHONHASHSEED:-0} VERIF_TIER=$2
+export PYTHONPATH="$(pwd)" PYTHONHASHSEED=${PYTHONHASHSEED:-0} VERIF_TIER=$2
 export OMP_NUM_THREADS=1 OPENBLAS_NUM_THREADS=1 MKL_NUM_THREADS=1
 exec /venv/bin/python -m checks.check "$1" --tier "$2"
